@@ -53,7 +53,7 @@ func (p *Pool) Go(f func()) {
 	p.init = true
 	if p.limit > 0 {
 		if vsched.Active() {
-			vsched.Block("wait", "pool limiter", func() bool { return p.running < p.limit }, func() { p.running++ })
+			vsched.Block("wait", "pool limiter", nil, func() bool { return p.running < p.limit }, func() { p.running++ })
 		} else {
 			if p.nsem == nil {
 				p.nsem = make(chan struct{}, p.limit)
@@ -90,7 +90,8 @@ func (p *Pool) WithErrors() *ErrorPool {
 func (p *Pool) WithContext(ctx context.Context) *ContextPool {
 	p.panicIfInitialized()
 	ctx, cancel := context.WithCancel(ctx)
-	return &ContextPool{errorPool: ErrorPool{pool: p}, ctx: ctx, cancel: cancel}
+	vsched.NewCtx(ctx)
+	return &ContextPool{errorPool: ErrorPool{pool: p}, ctx: ctx, cancel: func() { vsched.Cancelling(ctx); cancel() }}
 }
 
 type ErrorPool struct {
@@ -118,7 +119,8 @@ func (p *ErrorPool) Wait() error {
 func (p *ErrorPool) WithContext(ctx context.Context) *ContextPool {
 	p.pool.panicIfInitialized()
 	ctx, cancel := context.WithCancel(ctx)
-	return &ContextPool{errorPool: ErrorPool{pool: p.pool, onlyFirstError: p.onlyFirstError}, ctx: ctx, cancel: cancel}
+	vsched.NewCtx(ctx)
+	return &ContextPool{errorPool: ErrorPool{pool: p.pool, onlyFirstError: p.onlyFirstError}, ctx: ctx, cancel: func() { vsched.Cancelling(ctx); cancel() }}
 }
 
 func (p *ErrorPool) WithFirstError() *ErrorPool {
